@@ -486,29 +486,58 @@ theorem tstep_dLoadEntry {n : Nat} (ih : AllT cfg N n) (name : Name) (W : Nat) (
     SpecT (dLoadEntry (n+1) cfg name) s := by
   show Goal s _ s
   simp only [dLoadEntry, Goal, tpv_bind, tpv_getSt]
-  cases s.get .d (keyOf name) with
-  | some e => exact Mono.refl s
-  | none =>
+  have hbody : ∀ own : Option Entry,
+      tpv (do
+        let r ← dFind n cfg name
+        let st ← getSt
+        match r, st.get .d (keyOf name) with
+        | some (some d), some (some d') =>
+          if d = d' then pure (some (some d))
+          else do
+            let e ← setEntry .d (keyOf name) (some d)
+            pure (some e)
+        | some (some d), _ => do
+          let e ← setEntry .d (keyOf name) (some d)
+          pure (some e)
+        | _, _ =>
+          match own with
+          | none => do
+            let e ← setEntry .d (keyOf name) none
+            pure (some e)
+          | some o => pure (some o)) (fun _ s' => Mono s s') (Mono s) s := by
+    intro own
     simp only [tpv_bind]
     refine tpv_call (Mono.refl s) (ih.dFind name W s hp hN (by omega)) ?_
     intro r s1 hm1
     simp only [tpv_getSt]
-    have hgen : ∀ e : Entry, tpv (do
+    have hset : ∀ e : Entry, tpv (do
         let e' ← setEntry .d (keyOf name) e
         pure (some e')) (fun _ s' => Mono s s') (Mono s) s1 := by
       intro e
       simp only [tpv_bind]
       exact tpv_setEntry_call .d (keyOf name) e hm1 (fun _ _ h => h)
+    have hgen : tpv (match own with
+        | none => do
+          let e ← setEntry .d (keyOf name) none
+          pure (some e)
+        | some o => pure (some o)) (fun _ s' => Mono s s') (Mono s) s1 := by
+      cases own with
+      | none => exact hset none
+      | some o => exact hm1
     match r, s1.get .d (keyOf name) with
     | some (some d), some (some d') =>
       simp only []
       by_cases hdd : d = d'
       · rw [if_pos hdd]; exact hm1
-      · rw [if_neg hdd]; exact hgen _
-    | some (some d), some none => exact hgen _
-    | some (some d), none => exact hgen _
-    | some none, _ => exact hgen _
-    | none, _ => exact hgen _
+      · rw [if_neg hdd]; exact hset _
+    | some (some d), some none => exact hset _
+    | some (some d), none => exact hset _
+    | some none, _ => exact hgen
+    | none, _ => exact hgen
+  match s.get .d (keyOf name) with
+  | some (some d) => exact Mono.refl s
+  | some none => exact hbody (some none)
+  | none => exact hbody none
 
 theorem allT (hg : cfg.guardInit = true) : ∀ n, AllT cfg N n
   | 0 => by
